@@ -1638,6 +1638,10 @@ class Exec:
             raise EngineError('func comparison')
         if isinstance(a, MapRef):
             return a.obj == b.obj
+        if isinstance(a, Slice) and isinstance(b, Slice):
+            # Go only compares slices with nil: one side is the typed nil constant
+            if a.obj is None or b.obj is None:
+                return a.obj is None and b.obj is None
         raise EngineError('eq of %r' % type(a).__name__)
 
 
